@@ -1,15 +1,15 @@
 SPECIFICATION Spec
 CONSTANTS
-  Keys <- MCKeys
+  Keys <- MCKeysInc
   Loose0 <- MCLoose0
-  Packed0 <- MCPacked0
+  Packed0 <- MCPacked0Inc
   AddKeys <- MCAdds
   DirectKeys <- MCDirect
-  PackRounds = 2
-  CleanRounds = 2
-  Order <- OrderIndexFirst
-  PrevIdx <- MCPrevIdx
-  Incremental = FALSE
+  PackRounds = 1
+  CleanRounds = 1
+  Order <- OrderCode
+  PrevIdx <- MCPrevIdxInc
+  Incremental = TRUE
   IdxByChecksum = TRUE
   RestCopiesLiveIndex = FALSE
 INVARIANT BackupValid
